@@ -14,87 +14,92 @@ CONSTANTS MaxSteps, Store, RefreshOn
 Vocab == [ atoms |-> [ none |-> "" ] ]
 Browsers == {"b1", "b2"}
 Users    == {"alice", "bob"}
-NoSess   == [user |-> "none", age |-> "none", gen |-> 0, sid |-> 0, tampered |-> FALSE]
+NoSess   == [user |-> "none", age |-> "none", gen |-> 0, sid |-> 0, tampered |-> FALSE, grp |-> FALSE]
 
 VARIABLES br,        \* [Browsers -> session the browser's jar holds]   age: fresh | stale (older than refresh period) | expired
           stored,    \* redis: set of session ids whose entry exists
           snaps,     \* sequence of [b, sess] : every credential a browser ever held (for replays)
           allowed,   \* users the e-mail rules admit right now (the e-mails file)
           idpOK,     \* the IdP answers refresh requests
+          member,    \* users who are in the allowed group AT THE IDP right now (a session learns of a change only by a refresh or a new login)
           usedRT,    \* cookie store: <<sid, gen>> whose refresh token the IdP has already redeemed (it rotates them)
           nsid, hist
-vars == <<br, stored, snaps, allowed, idpOK, usedRT, nsid, hist>>
+vars == <<br, stored, snaps, allowed, idpOK, member, usedRT, nsid, hist>>
 
-Init == /\ br = [b \in Browsers |-> NoSess] /\ stored = {} /\ snaps = <<>> /\ allowed = {"alice"} /\ idpOK = TRUE /\ usedRT = {} /\ nsid = 0 /\ hist = <<>>
+Init == /\ br = [b \in Browsers |-> NoSess] /\ stored = {} /\ snaps = <<>> /\ allowed = {"alice"} /\ idpOK = TRUE /\ member = Users /\ usedRT = {} /\ nsid = 0 /\ hist = <<>>
 
 Step(a, args, req) == hist' = Append(hist, [a |-> a, args |-> args, req |-> req])
 More == Len(hist) < MaxSteps
 
 \* is the credential s one the proxy honours right now
 Exists(s)  == s.user # "none" /\ ~s.tampered /\ s.age # "expired" /\ (Store = "redis" => s.sid \in stored)
-Authorised(s) == s.user \in allowed
+\* the e-mail rules in force admit the user and the SESSION carries the allowed group
+Authorised(s) == s.user \in allowed /\ s.grp
 \* presenting credential s makes the proxy redeem its refresh token successfully
-Refreshes(s) == Exists(s) /\ Authorised(s) /\ s.age = "stale" /\ RefreshOn /\ idpOK /\ (Store = "cookie" => <<s.sid, s.gen>> \notin usedRT)
+\* (the refresh comes first: what is authorised is the session AFTER it, with the groups the new ID token carries)
+Refreshes(s) == Exists(s) /\ s.age = "stale" /\ RefreshOn /\ idpOK /\ (Store = "cookie" => <<s.sid, s.gen>> \notin usedRT)
+Refreshed(s) == [s EXCEPT !.age = "fresh", !.gen = @ + 1, !.grp = s.user \in member]
 \* the effect of a refresh on every other holder of that session:
 \*   redis  - the one stored session is renewed, so every stale credential of that ticket now loads a fresh one
 \*   cookie - each credential is self-contained; the others stay as they are, but their refresh token is spent
-Renew(c, s) == IF Store = "redis" /\ c.sid = s.sid /\ c.age = "stale" /\ ~c.tampered THEN [c EXCEPT !.age = "fresh", !.gen = s.gen + 1] ELSE c
+Renew(c, s) == IF Store = "redis" /\ c.sid = s.sid /\ c.age = "stale" /\ ~c.tampered THEN [c EXCEPT !.age = "fresh", !.gen = s.gen + 1, !.grp = s.user \in member] ELSE c
 
 \* ---- browser steps -------------------------------------------------------------------------------
 Login(b, u) ==
     /\ More
-    /\ IF u \in allowed
-       THEN /\ br' = [br EXCEPT ![b] = [user |-> u, age |-> "fresh", gen |-> 0, sid |-> nsid + 1, tampered |-> FALSE]]
+    /\ IF u \in allowed /\ u \in member
+       THEN /\ br' = [br EXCEPT ![b] = [user |-> u, age |-> "fresh", gen |-> 0, sid |-> nsid + 1, tampered |-> FALSE, grp |-> TRUE]]
             /\ stored' = IF Store = "redis" THEN stored \cup {nsid + 1} ELSE stored
             /\ snaps' = Append(snaps, [b |-> b, sess |-> br'[b]])
             /\ nsid' = nsid + 1
             /\ Step("login", [b |-> b, user |-> u], [session |-> "set"])
        ELSE /\ Step("login", [b |-> b, user |-> u], [session |-> [not |-> "set"]])
             /\ UNCHANGED <<br, stored, snaps, nsid>>
-    /\ UNCHANGED <<allowed, idpOK, usedRT>>
+    /\ UNCHANGED <<allowed, idpOK, member, usedRT>>
 
 \* a request to a protected path / the auth-only endpoint / userinfo
 Request(b, ep) ==
     /\ More
     /\ LET s == br[b]
            refresh == Refreshes(s)
-           s2 == IF refresh THEN [s EXCEPT !.age = "fresh", !.gen = @ + 1] ELSE s
-       IN IF Exists(s) /\ Authorised(s)
-          THEN /\ br' = [x \in Browsers |-> IF x = b THEN s2 ELSE IF refresh THEN Renew(br[x], s) ELSE br[x]]
-               /\ snaps' = IF refresh THEN Append([i \in 1..Len(snaps) |-> [snaps[i] EXCEPT !.sess = Renew(@, s)]], [b |-> b, sess |-> s2]) ELSE snaps
-               /\ usedRT' = IF refresh /\ Store = "cookie" THEN usedRT \cup {<<s.sid, s.gen>>} ELSE usedRT
-               /\ Step("request", [b |-> b, ep |-> ep],
-                       [served |-> TRUE, user |-> s.user])
-               /\ UNCHANGED stored
-          ELSE \* refused; a session that exists but is not (any longer) authorised, or whose credential is invalid, is cleared
-               /\ br' = [br EXCEPT ![b] = NoSess]
-               /\ stored' = IF Store = "redis" /\ Exists(s) THEN stored \ {s.sid} ELSE stored
-               /\ Step("request", [b |-> b, ep |-> ep], [served |-> FALSE, status |-> [oneof |-> <<401, 403>>]])
-               /\ UNCHANGED <<snaps, usedRT>>
-    /\ UNCHANGED <<allowed, idpOK, nsid>>
+           s2 == IF refresh THEN Refreshed(s) ELSE s
+       IN /\ usedRT' = IF refresh /\ Store = "cookie" THEN usedRT \cup {<<s.sid, s.gen>>} ELSE usedRT
+          /\ IF Exists(s) /\ Authorised(s2)
+             THEN /\ br' = [x \in Browsers |-> IF x = b THEN s2 ELSE IF refresh THEN Renew(br[x], s) ELSE br[x]]
+                  /\ snaps' = IF refresh THEN Append([i \in 1..Len(snaps) |-> [snaps[i] EXCEPT !.sess = Renew(@, s)]], [b |-> b, sess |-> s2]) ELSE snaps
+                  /\ Step("request", [b |-> b, ep |-> ep],
+                          [served |-> TRUE, user |-> s.user])
+                  /\ UNCHANGED stored
+             ELSE \* refused; a session that exists but is not (any longer) authorised, or whose credential is invalid, is cleared
+                  /\ br' = [br EXCEPT ![b] = NoSess]
+                  /\ stored' = IF Store = "redis" /\ Exists(s) THEN stored \ {s.sid} ELSE stored
+                  /\ Step("request", [b |-> b, ep |-> ep], [served |-> FALSE, status |-> [oneof |-> <<401, 403>>]])
+                  /\ UNCHANGED snaps
+    /\ UNCHANGED <<allowed, idpOK, member, nsid>>
 
 SignOut(b) ==
     /\ More /\ br[b].user # "none"
     /\ br' = [br EXCEPT ![b] = NoSess]
     /\ stored' = IF ~br[b].tampered THEN stored \ {br[b].sid} ELSE stored
     /\ Step("signout", [b |-> b], [status |-> 302, stillSignedIn |-> FALSE])
-    /\ UNCHANGED <<snaps, allowed, idpOK, usedRT, nsid>>
+    /\ UNCHANGED <<snaps, allowed, idpOK, member, usedRT, nsid>>
 
 \* an old credential of ANY browser is presented by browser b (theft / replay)
 Replay(b, i) ==
     /\ More /\ i \in 1..Len(snaps)
     /\ LET s == snaps[i].sess
            \* with the cookie store every generation is a self-contained credential; with Redis the ticket is the same for all generations
-           live == Exists(s) /\ Authorised(s)
            refresh == Refreshes(s)
+           s2 == IF refresh THEN Refreshed(s) ELSE s
+           live == Exists(s) /\ Authorised(s2)
        IN /\ Step("replay", [b |-> b, snap |-> i], IF live THEN [served |-> TRUE, user |-> s.user] ELSE [served |-> FALSE])
           \* the replayed request has the server-side effects of any request: it may redeem the refresh token (the renewed
           \* cookie goes to the replayer and is dropped), and an existing-but-unauthorised session is removed
-          /\ br' = [x \in Browsers |-> IF refresh THEN Renew(br[x], s) ELSE br[x]]
-          /\ snaps' = IF refresh THEN [k \in 1..Len(snaps) |-> [snaps[k] EXCEPT !.sess = Renew(@, s)]] ELSE snaps
+          /\ br' = [x \in Browsers |-> IF refresh /\ live THEN Renew(br[x], s) ELSE br[x]]
+          /\ snaps' = IF refresh /\ live THEN [k \in 1..Len(snaps) |-> [snaps[k] EXCEPT !.sess = Renew(@, s)]] ELSE snaps
           /\ usedRT' = IF refresh /\ Store = "cookie" THEN usedRT \cup {<<s.sid, s.gen>>} ELSE usedRT
-          /\ stored' = IF Store = "redis" /\ Exists(s) /\ ~Authorised(s) THEN stored \ {s.sid} ELSE stored
-    /\ UNCHANGED <<allowed, idpOK, nsid>>
+          /\ stored' = IF Store = "redis" /\ Exists(s) /\ ~live THEN stored \ {s.sid} ELSE stored
+    /\ UNCHANGED <<allowed, idpOK, member, nsid>>
 
 \* ---- environment steps ---------------------------------------------------------------------------
 \* time passes for browser b's session
@@ -105,34 +110,40 @@ Age(b, to) ==
     \* time passes for every credential of that session (older generations are at least as old)
     /\ snaps' = [i \in 1..Len(snaps) |-> IF snaps[i].sess.sid = br[b].sid THEN [snaps[i] EXCEPT !.sess.age = to] ELSE snaps[i]]
     /\ Step("age", [b |-> b, to |-> to], [ok |-> TRUE])
-    /\ UNCHANGED <<stored, allowed, idpOK, usedRT, nsid>>
+    /\ UNCHANGED <<stored, allowed, idpOK, member, usedRT, nsid>>
 Tamper(b) ==
     /\ More /\ br[b].user # "none" /\ ~br[b].tampered
     /\ br' = [br EXCEPT ![b].tampered = TRUE]
     /\ Step("tamper", [b |-> b], [ok |-> TRUE])
-    /\ UNCHANGED <<stored, snaps, allowed, idpOK, usedRT, nsid>>
+    /\ UNCHANGED <<stored, snaps, allowed, idpOK, member, usedRT, nsid>>
 RulesChange ==
     /\ More
     /\ allowed' = IF "bob" \in allowed THEN {"alice"} ELSE {"alice", "bob"}
     /\ Step("rules", [allowed |-> IF "bob" \in allowed THEN <<"alice">> ELSE <<"alice", "bob">>], [reloaded |-> TRUE])
-    /\ UNCHANGED <<br, stored, snaps, idpOK, usedRT, nsid>>
+    /\ UNCHANGED <<br, stored, snaps, idpOK, member, usedRT, nsid>>
+\* the user's group membership changes at the identity provider
+GroupChange(u) ==
+    /\ More
+    /\ member' = IF u \in member THEN member \ {u} ELSE member \cup {u}
+    /\ Step("groups", [user |-> u, member |-> u \notin member], [ok |-> TRUE])
+    /\ UNCHANGED <<br, stored, snaps, allowed, idpOK, usedRT, nsid>>
 IdPToggle ==
     /\ More /\ RefreshOn
     /\ idpOK' = ~idpOK
     /\ Step("idp", [ok |-> ~idpOK], [ok |-> TRUE])
-    /\ UNCHANGED <<br, stored, snaps, allowed, usedRT, nsid>>
+    /\ UNCHANGED <<br, stored, snaps, allowed, member, usedRT, nsid>>
 StoreFlush ==
     /\ More /\ Store = "redis" /\ stored # {}
     /\ stored' = {}
     /\ Step("flush", [n |-> Cardinality(stored)], [ok |-> TRUE])
-    /\ UNCHANGED <<br, snaps, allowed, idpOK, usedRT, nsid>>
+    /\ UNCHANGED <<br, snaps, allowed, idpOK, member, usedRT, nsid>>
 
 Next == \/ \E b \in Browsers, u \in Users : Login(b, u)
         \/ \E b \in Browsers, ep \in {"proxy", "authonly", "userinfo"} : Request(b, ep)
         \/ \E b \in Browsers : SignOut(b) \/ Tamper(b)
         \/ \E b \in Browsers, i \in 1..3 : Replay(b, Len(snaps) + 1 - i)
         \/ \E b \in Browsers, to \in {"stale", "expired"} : Age(b, to)
-        \/ RulesChange \/ IdPToggle \/ StoreFlush
+        \/ RulesChange \/ IdPToggle \/ StoreFlush \/ GroupChange("alice")
 
 \* ---- model-level properties -------------------------------------------------------------------------
 \* a browser is only ever served as the user of the credential it presents
